@@ -2,7 +2,9 @@
 (* Several simultaneous connections of one configured peer (RFC 4271 6.8,      *)
 (* RFC 6286; protocols/bgp/server peer.collisionHandling, shouldCeaseOnCollision, *)
 (* server.incomingConnectionWorker, fsm_open_sent.openMsgReceived), property C24. *)
-(* Every connection has its own FSM.  The collision is detected when an OPEN   *)
+(* Every connection has its own FSM (the peer's own one for the connection it  *)
+(* dialled, a new one per accepted connection); the code does not distinguish  *)
+(* them afterwards.  The collision is detected when an OPEN                    *)
 (* arrives on a connection in OpenSent: a sibling in Established always wins;  *)
 (* against a sibling in OpenConfirm the BGP identifiers decide (the AS numbers *)
 (* when the identifiers are equal): the connection the OPEN just arrived on    *)
@@ -13,6 +15,7 @@ EXTENDS Naturals, Sequences, FiniteSets, TLC, Json
 CONSTANTS MaxConns,   \* connections the peer opens during a behaviour (numbered in the order they are opened)
           MaxOpen,    \* how many of them may be open at the same time
           Order,      \* "localLower" | "localHigher" | "sameIdLocalASLower" | "sameIdLocalASHigher"
+          Outgoing,   \* BOOLEAN: connection 1 is the one this speaker dialled (its own FSM); all others are accepted ones
           MaxDepth
 
 VARIABLES cs,         \* [Conns -> "none" | "OpenSent" | "OpenConfirm" | "Established" | "Closed"]
@@ -33,7 +36,7 @@ St == [cs |-> {[c |-> c, st |-> cs'[c], out |-> out'[c]] : c \in Conns},
 Log(r) == hist' = Append(hist, r @@ [s |-> St])
 
 Init == /\ cs = [c \in Conns |-> "none"] /\ out = [c \in Conns |-> <<>>] /\ learned = [c \in Conns |-> FALSE]
-        /\ hist = << [a |-> "Config", order |-> Order, s |-> [cs |-> {[c |-> c, st |-> "none", out |-> <<>>] : c \in Conns}, loc |-> {}]] >>
+        /\ hist = << [a |-> "Config", order |-> Order, outgoing |-> Outgoing, s |-> [cs |-> {[c |-> c, st |-> "none", out |-> <<>>] : c \in Conns}, loc |-> {}]] >>
 
 (* the peer opens its next connection: the speaker accepts it and sends its OPEN *)
 Connect(c) ==
